@@ -379,6 +379,78 @@ func main() { mon.Main("C06", run) }
 func run(r *mon.Run) {
 	r.Rule("bundles b1/b2 x 1..6 exchanges on up to 3 hosts (+ an uncovered host) x sequences of 1..3 signers (P-256/P-384, chains of 1-2 certificates, SANs covering disjoint host subsets) x MI record sizes {1,16,17,4096,16384} x lifetimes {1 s, 1 h, 1 d, 7 d}; checked in memory and after WriteTo/Read; authority index resolved by the harness; time grid around date / expires incl. sub-second instants and lifetime 604800 / 604801; mutations: every bit of the signatures section (small bundles), status / every header (incl. Digest re-encoded together with the body) / body bytes at every record boundary of covered exchanges, signed subsets swapped between signers, authority index +-1 / out of range, sig truncated / extended; crypto/ecdsa over the independently rebuilt message referees every vouched subset NewVerifier accepts; distinct = (version, class, mutation kind, outcome)")
 	r.Assume("ECDSA/SHA-256 is not forged by a random edit; signers cover disjoint host sets (a second AddPayloadIntegrity on the same exchange is refused by design); certificates are not validated by this library")
+	// resources that already carry a Digest header of another algorithm (RFC 3230 instance digests): the signer may refuse
+	// them, but IF it processes the bundle every covered exchange verifies afterwards, as for any other bundle
+	if r.Shard == 0 {
+		dg := r.Rand("foreign-digest", 0)
+		ck := gen.ECKey(dg, gen.Curves[0])
+		leaf := gen.Cert(ck, gen.CertOpts{CN: "d.example", DNS: []string{"d.example"}, Serial: 4712})
+		ch, _ := certurl.NewCertChain([]*x509.Certificate{leaf}, []byte("ocsp"), nil)
+		vu, _ := url.Parse("https://d.example/validity")
+		date := time.Unix(1600000000, 0)
+		for _, ver := range []version.Version{version.VersionB1, version.VersionB2} {
+			for di, dv := range []string{"sha-256=X48E9qOokqqrvdts8nOJRJN3OWDUoyWxBf7kbu9DBPE=", "SHA-512=abc", "md5=HUXZLQLMuI/KZ5KDcJPcOA==,sha-256=X48E9qOokqqrvdts8nOJRJN3OWDUoyWxBf7kbu9DBPE=", "unixsum=1234"} {
+				b := &bundle.Bundle{Version: ver}
+				bodies := map[string][]byte{}
+				for k := 0; k < 2; k++ {
+					u, _ := url.Parse(fmt.Sprintf("https://d.example/r%d", k))
+					h := http.Header{"Content-Type": {"text/plain"}}
+					if k == 1 {
+						h["Digest"] = []string{dv}
+					}
+					body := dg.Bytes(40 + k)
+					bodies[u.String()] = append([]byte{}, body...)
+					b.Exchanges = append(b.Exchanges, &bundle.Exchange{Request: bundle.Request{URL: u, Header: http.Header{}}, Response: bundle.Response{Status: 200, Header: h, Body: body}})
+				}
+				if ver == version.VersionB1 {
+					b.PrimaryURL = b.Exchanges[0].Request.URL
+				}
+				key := fmt.Sprintf("bs:foreign-digest:%s:%d", ver, di)
+				outcome, problem := "processed-and-verifies", ""
+				p, pv := r.Call(key, nil, func() {
+					sg, err := signature.NewSigner(ver, ch, ck, vu, date, time.Hour)
+					if err != nil {
+						outcome = "signer-refused"
+						return
+					}
+					for _, e := range b.Exchanges {
+						integ, err := e.AddPayloadIntegrity(ver, 16)
+						if err == nil {
+							err = sg.AddExchange(e, integ)
+						}
+						if err != nil {
+							outcome = "signer-refused"
+							return
+						}
+					}
+					if b.Signatures, err = sg.UpdateSignatures(nil); err != nil {
+						outcome = "signer-refused"
+						return
+					}
+					v, err := signature.NewVerifier(b.Signatures, date.Add(time.Minute), ver)
+					if err != nil {
+						problem = "NewVerifier: " + err.Error()
+						return
+					}
+					for _, e := range b.Exchanges {
+						res, err := v.VerifyExchange(e)
+						if err != nil || res == nil || !bytes.Equal(res.VerifiedPayload, bodies[e.Request.URL.String()]) {
+							problem = fmt.Sprintf("covered exchange %s does not verify with its original body after the signer processed the bundle without complaint: %v", e.Request.URL, err)
+						}
+					}
+				})
+				if p {
+					problem = fmt.Sprintf("panic: %v", pv)
+				}
+				if problem != "" {
+					outcome = "PROCESSED-BUT-DOES-NOT-VERIFY"
+					r.Violation(key, fmt.Sprintf("%s bundle with a resource carrying Digest: %s: %s", ver, dv, problem), nil)
+				}
+				r.Eval("foreign-digest:" + outcome)
+				r.Distinct(fmt.Sprintf("foreign-digest|%s|%d|%s", ver, di, outcome))
+			}
+		}
+	}
 	// which hosts a certificate covers (the harness follows CanSignForURL when it signs, as sign-bundle does; this is
 	// the independent statement of what that answer has to be for exact and wildcard names)
 	if r.Shard == 0 {
